@@ -9,11 +9,9 @@ Local Open Scope Z_scope.
 
 (** ---- every operation is refined by its micro-steps ---------------------------- *)
 
-Definition op_plain (o : cop) : bool := match o with CBase o' => rename_plain o' | _ => true end.
-
-Lemma refines d o : WF d -> op_plain o = true -> run_steps d (micro d o) = fst (big d o).
+Lemma refines d o : WF d -> run_steps d (micro d o) = fst (big d o).
 Proof.
-  intros W P. destruct o as [t1 t2 t3 t4 t5|f t sh|f fl sh|o|n|n].
+  intros W. destruct o as [t1 t2 t3 t4 t5|f t sh|f fl sh|o|n|n].
   - apply open_refines.
   - destruct (ready d) eqn:Hr.
     + apply deliver_refines; auto. now apply wf_below.
@@ -23,7 +21,7 @@ Proof.
     + cbn [micro big]. rewrite Hr. reflexivity.
   - cbn [micro big]. destruct (ready d) eqn:Hr; [|reflexivity].
     destruct (base_ok o) eqn:Hb; cbn [andb].
-    + rewrite base_refines; auto; [|now apply wf_ids]. destruct (step (d_st d) o); reflexivity.
+    + rewrite base_refines; auto; [|now apply wf_ids]. destruct (step7 (d_st d) o); reflexivity.
     + destruct o; try discriminate; reflexivity.
   - cbn [micro big]. destruct (ready d); reflexivity.
   - cbn [micro big]. destruct (ready d); reflexivity.
@@ -37,10 +35,9 @@ Proof.
   cbn [run_all fold_left]. apply IH. apply run_WF; auto. now apply micro_guards.
 Qed.
 
-Lemma run_all_big h : forall d, WF d -> forallb op_plain h = true -> run_all d h = big_all d h.
+Lemma run_all_big h : forall d, WF d -> run_all d h = big_all d h.
 Proof.
-  induction h as [|o r IH]; intros d W P; [reflexivity|].
-  cbn [forallb] in P. apply andb_true_iff in P. destruct P as [P1 P2].
+  induction h as [|o r IH]; intros d W; [reflexivity|].
   unfold run_all, big_all in *. cbn [fold_left]. rewrite refines by auto.
   apply IH; auto. rewrite <- refines by auto. apply run_WF; auto. now apply micro_guards.
 Qed.
